@@ -450,32 +450,43 @@ def d_reliability(ctx, rng, ds, paths, kind):
 def d_discrimination(ctx, rng, ds, paths, kind):
     if kind != "prob":
         return
+    _discrimination(ctx, rng, ds, paths, kind, False)
+    _discrimination(ctx, rng, ds, paths, kind, True)
+
+
+def _discrimination(ctx, rng, ds, paths, kind, given):
     t = rng.choice(ds["inputs"][0]["thresholds"])
     b = rng.choice(["above", "below="])
     argv = ["-m", "discrimination", "-r", gen.fnum(t), "-b", b]
+    edges = [i * 0.1 for i in range(10)] + [1.0]
+    if given:
+        # -q gives the bin edges: fewer or more than the default ten bins
+        edges = rng.choice([[0.0, 0.25, 0.5, 0.75, 1.0], [0.0, 0.5, 1.0], [i / 20.0 for i in range(21)], [0.0, 0.1, 0.3, 0.6, 0.8, 0.9, 1.0]])
+        argv += ["-q", ",".join(gen.fnum(e) for e in edges)]
+        ctx.count("discrimination_with_given_edges")
+    nb = len(edges) - 1
     fig, case = run(ctx, paths, argv, ds)
     if fig is None:
         return
     F = len(ds["inputs"])
-    edges = [i * 0.1 for i in range(10)] + [1.0]
     ax = fig.axes[0]
     bars = [p for p in ax.patches if p.get_width() > 0]
     distinct = 0
-    # bars are drawn per input: first the 'not observed' group (10), then the 'observed' group (10)
-    if len(bars) != 20 * F:
-        ctx.violation("discrimination|bars", "%d bars for %d inputs (expected 20 per input)" % (len(bars), F), case)
+    # bars are drawn per input: first the 'not observed' group (one bar per bin), then the 'observed' group
+    if len(bars) != 2 * nb * F:
+        ctx.violation("discrimination|bars", "%d bars for %d inputs (expected %d per input)" % (len(bars), F, 2 * nb), case)
         return
     for k in range(F):
         o, p = _event_prob_cases(ds, k, b, t)
-        g0 = [float(x.get_height()) for x in bars[20 * k:20 * k + 10]]
-        g1 = [float(x.get_height()) for x in bars[20 * k + 10:20 * k + 20]]
+        g0 = [float(x.get_height()) for x in bars[2 * nb * k:2 * nb * k + nb]]
+        g1 = [float(x.get_height()) for x in bars[2 * nb * k + nb:2 * nb * k + 2 * nb]]
         for ev, got in ((0.0, g0), (1.0, g1)):
             sel = [q for a, q in zip(o, p) if a == ev]
             if not sel:
                 continue
             want = []
-            for i in range(10):
-                want.append(100.0 * sum(1 for q in sel if (edges[i] <= q < edges[i + 1]) or (i == 9 and q == 1.0)) / len(sel))
+            for i in range(nb):
+                want.append(100.0 * sum(1 for q in sel if (edges[i] <= q < edges[i + 1]) or (i == nb - 1 and q == edges[-1])) / len(sel))
             ctx.count("bin_conservation_checks")
             if abs(sum(got) - 100.0) > 1e-6:
                 ctx.violation("discrimination|bin-conservation", "input %d, %s cases: the bars sum to %.4g%% (cases with p = 1: %d of %d)"
